@@ -11,7 +11,7 @@ from harness.lib.coqterm import cjson, cstr, cexn, clist, copt, cZ
 ID = 'C06'
 CASE_TYPE = 'C06.case'
 EXTRA_IMPORTS = 'From PJ Require Import Model.Msg.\n'
-RULE = ('parse cases: the full product of per-member alphabets for request (5x13x9x10), response (5x16x8x14) and error '
+RULE = ('parse cases: the full product of per-member alphabets for request (8x13x9x10), response (8x16x8x14) and error '
         '(14x8x9) objects, non-object inputs of every JSON type, batches of <=3 elements over 6 element documents, '
         'batch-level error objects; history cases: every id sequence of length <=4 over {null,1,2,"1"} under every '
         'grouping into append/extend operations (the argument of extend a list, a tuple, a generator or an iterator), for BatchRequest and BatchResponse. distinct = distinct (kind, input); '
@@ -21,7 +21,7 @@ TRUSTED_BASE = ['json value typing as produced by json.loads (dict/list/str/int/
 ASSUMPTIONS = ['inputs are JSON values as json.loads produces them (no tuples, no non-string keys)']
 
 A = '<absent>'
-J = [A, '2.0', '1.0', 2.0, None]
+J = [A, '2.0', '1.0', 2.0, None, [], {}, ['2.0']]        # incl. unhashable values
 I13 = [A, None, 0, 1, -1, 2 ** 64, '', 'a', '1', True, 1.5, [], {}]
 I16 = I13 + [False, 1.0, [1]]
 M = [A, 'm', '', 1, None, True, [], {}, 'a.b']
